@@ -332,7 +332,7 @@ def shards(tier):
             out.append(dict(fn="h_history", timeout=2400, shard=dict(nev=4, e1=e1, ctor=True)))
     out.append(dict(fn="h_names", timeout=T, shard={}))
     out.append(dict(fn="h_murmur", timeout=T, shard={}))
-    out.append(dict(runner="harness.C11", fn="witness", no_twin=True, timeout=60, klen=4,
+    out.append(dict(runner="harness.C11", fn="witness", no_twin=True, timeout=240, klen=4,
                     nodesets=[NODESETS[0], NODESETS[1], NODESETS[2]], shard={"witness": "keys reach every node"}))
     return out
 
